@@ -16,11 +16,23 @@ use crate::lcheck::{run_parallel, violation};
 fn det_def(seed: u64, i: usize) -> Def {
     let mut rng = Rng::derive(seed ^ 0xC16, i as u64);
     let name = format!("D{i}");
-    match i % 6 {
+    match i % 10 {
         0 | 1 => gen::f2_keywords(&mut rng, &name),
         2 => gen::f3_unicode(&mut rng, &name),
         3 => gen::f8_reject(&mut rng, &name).0,
         4 => gen::f6_loops(&mut rng, &name),
+        5 => {
+            // rejected definitions with several subpatterns and an undefined reference (diagnostic texts)
+            let mut d = gen::f10_subpat(&mut rng, &name);
+            d.subpats.push(("extra_a".into(), vmon::spec::Lit::s("[a-f]")));
+            d.subpats.push(("extra_b".into(), vmon::spec::Lit::s("[0-9]")));
+            d.push(vmon::spec::Pat::regex("(?&extra_c)|(?&nope)", 0));
+            d.normalize();
+            d
+        }
+        6 => gen::f10_subpat(&mut rng, &name),
+        7 => gen::f9_callbacks(&mut rng, &name),
+        8 => perm_base(seed, i),
         _ => gen::f1_soup(&mut rng, &name),
     }
 }
@@ -449,7 +461,26 @@ pub fn fuzz_one(seed: u64, i: usize) -> (Vec<Value>, BTreeMap<String, usize>, Op
     let mut bump = |k: &str, stats: &mut BTreeMap<String, usize>| *stats.entry(k.to_string()).or_insert(0) += 1;
     let mut sample = None;
     let dummy = Def::new(&name, "raw", true);
-    match i % 4 {
+    match i % 5 {
+        4 => {
+            // every generator family is an input too: the derive must not panic on any of them
+            let def = match (i / 5) % 6 {
+                0 => gen::f11_literal(&mut rng, &name),
+                1 => gen::f4_bytes(&mut rng, &name),
+                2 => gen::f10_subpat(&mut rng, &name),
+                3 => gen::f9_callbacks(&mut rng, &name),
+                4 => gen::f3_unicode(&mut rng, &name),
+                _ => gen::mixed(&mut rng, &name, i),
+            };
+            let a = analyze::run_generate(&def);
+            bump("family-input", &mut stats);
+            match &a.outcome {
+                Outcome::Panicked(m) => violations.push(violation("C19", "derive-panicked", m, &def, None, None)),
+                Outcome::Rejected(_) => bump("rejected", &mut stats),
+                Outcome::Accepted => bump("accepted", &mut stats),
+                _ => {}
+            }
+        }
         0 => {
             // category specimens from the F8 generator
             let (def, cat) = gen::f8_reject(&mut rng, &name);
